@@ -48,7 +48,7 @@ Definition env_of (c : cel_ctx) (b : bind_ctx) : env :=
 Definition step_op (fuel : nat) (w : world) (o : op) : world * out :=
   match o with
   | OAddProgram c name src =>
-      match compile_source fuel src with
+      match compile_checked fuel src with
       | COk p _ => (mkWorld (zset c (map_insert (get_ctx w c) name (mkStored (pr_code p) (pr_params p))) (w_ctx w)) (w_bind w), OutNone)
       | CSyntax l => (w, OutCompileError l)
       | _ => (w, OutUnmodelled)
